@@ -6,5 +6,7 @@ d=/var/tmp/rmut-$name
 rm -rf $d; rsync -a --exclude .git /repo/ $d/
 (cd $d && bash -c "$cmd")
 (cd $d && diff -ru /repo . --exclude .git | head -30) || true
-VERIF_REPO=$d timeout 900 /verif/check $pid --tier quick 2>&1 | tail -4
-rm -rf $d /verif/work/alt-*
+export VERIF_WORK=/var/tmp/rmutwork-$name
+rm -rf $VERIF_WORK
+VERIF_REPO=$d timeout 1500 /verif/check $pid --tier quick 2>&1 | tail -4
+rm -rf $d $VERIF_WORK
